@@ -530,9 +530,9 @@ StepsOf(op) ==   \* the events of operation op enabled in the current state
 Steps == UNION {StepsOf(op) : op \in Ops}
 
 SeedToks == ("a1" :> [client |-> "cw", sub |-> "u1", scopes |-> {"openid", "email", "offline_access"}, aud |-> {"cw"}, kind |-> "opaque", dead |-> FALSE])
-         @@ ("a2" :> [client |-> "cx", sub |-> "u2", scopes |-> {"openid"}, aud |-> {"cx"}, kind |-> "jwt", dead |-> FALSE])
+         @@ ("a2" :> [client |-> "cx", sub |-> "u2@idp.example", scopes |-> {"openid"}, aud |-> {"cx"}, kind |-> "jwt", dead |-> FALSE])
 SeedRts  == ("f1" :> [client |-> "cw", sub |-> "u1", scopes |-> {"openid", "email", "offline_access"}, aud |-> {"cw"}, auth |-> "t", root |-> "f1", live |-> TRUE])
-SeedIdts == ("i1" :> [client |-> "cw", sub |-> "u1", dead |-> FALSE]) @@ ("i2" :> [client |-> "cx", sub |-> "u2", dead |-> FALSE])
+SeedIdts == ("i1" :> [client |-> "cw", sub |-> "u1", dead |-> FALSE]) @@ ("i2" :> [client |-> "cx", sub |-> "u2@idp.example", dead |-> FALSE])
 
 Init ==
   /\ IF Seeded
@@ -552,7 +552,7 @@ Init ==
               dev : IF "caps" \in Vary THEN BOOLEAN ELSE {TRUE},
               dyn : IF "dyn" \in Vary THEN BOOLEAN ELSE {FALSE},
               policy : IF "policy" \in Vary
-                       THEN [deny : BOOLEAN, defType : {"", "refresh"}, imp : {"", "u2"}, drop : {"email"}]
+                       THEN [deny : BOOLEAN, defType : {"", "refresh"}, imp : {"", "u2@idp.example"}, drop : {"email"}]
                        ELSE {[deny |-> FALSE, defType |-> "", imp |-> "", drop |-> ""]}]
 
 Next == cnt.n < MaxSteps /\ \E e \in Steps : Do(e)
